@@ -789,7 +789,7 @@ func main() {
 	c.Set("replay_schedule_drift_notes", drift)
 	c.Set("completion_order_realised", realised.Load())
 	c.Set("completion_order_not_realised", notRealised.Load())
-	if r, n := realised.Load(), notRealised.Load(); r < 9*(r+n)/10 {
+	if r, n := realised.Load(), notRealised.Load(); r < 9*(r+n)/10 && c.Violations() == 0 {
 		vlib.Infra("vacuous: only %d of %d replays realised the prescribed completion order", r, r+n)
 	}
 
@@ -1068,6 +1068,9 @@ func (e *emitted) dupMap() []int {
 func evaluate(c *vlib.Check, j *job, bin string, drift *int) bool {
 	s := j.S
 	e := j.E
+	if c.Violations() >= 20 {
+		return false // the reporting cap is reached; nothing further can be reported
+	}
 	c.AddEvals(1)
 	faults := []string{}
 	for _, o := range e.Out {
@@ -1087,6 +1090,9 @@ func evaluate(c *vlib.Check, j *job, bin string, drift *int) bool {
 	rb, _ := json.Marshal(s.Vars["reps"])
 	pb, _ := json.Marshal(s.Plan)
 	where := fmt.Sprintf("variant=%s representations=%s plan=%s release order=%v", j.Variant, rb, pb, s.Order)
+	if s.Result != nil && s.Result.Hung && confirms.Add(1) > 12 {
+		return false // a dozen confirmation reruns are enough to decide whether hangs are real
+	}
 	if s.Result != nil && s.Result.Hung {
 		s2 := vlib.Confirm(bin, s, nil)
 		if s2.Result != nil && !s2.Result.Hung && !s2.Crashed {
@@ -1151,7 +1157,7 @@ func evaluate(c *vlib.Check, j *job, bin string, drift *int) bool {
 	return true
 }
 
-var realised, notRealised atomic.Int64
+var realised, notRealised, confirms atomic.Int64
 
 func tailStr(s string, n int) string {
 	if len(s) > n {
